@@ -123,6 +123,11 @@ package main
 //@   calls GetAPIToken#1: set tok = $r
 //@   calls SignLocator#1: requires $0 == rtr.cluster && $2 == tok
 //@   calls ResponseWriter.Write#1: requires put
+//@   # the pooled buffer goes back to the pool at most once on every path (a
+//@   # buffer returned twice is handed to two later requests at the same time)
+//@   ghost released bool = false
+//@   calls bufferPool.Put#*: requires $0 == buf && !released
+//@   calls bufferPool.Put#*: set released = true
 
 // --------------------------------------------------------------------- C07
 // keepstore's wrappers pass the cluster's TTL and signing key and map errors:
@@ -133,6 +138,8 @@ package main
 //@   calls keepclient.VerifySignature#1: requires $0 == signedLocator && $1 == apiToken && $2 == arvados.Duration.Duration(cluster.Collections.BlobSigningTTL) && string($3) == cluster.Collections.BlobSigningKey
 //@   calls keepclient.VerifySignature#1: set inner = $r
 //@   ensures (result == nil) == (inner == nil)
+//@   ensures inner == arvados.ErrSignatureExpired ==> result == iface(ExpiredError)
+//@   ensures inner != nil && inner != arvados.ErrSignatureExpired ==> result == iface(PermissionError)
 //@   ensures (result == iface(ExpiredError)) == (inner == keepclient.ErrSignatureExpired)
 //@   ensures result != nil && result != iface(ExpiredError) ==> result == iface(PermissionError)
 
@@ -269,6 +276,14 @@ package main
 //@   loop 1: invariant failed ==> lastErr != nil
 //@   loop 2: invariant failed ==> lastErr != nil
 //@   ensures result == nil ==> !failed
+//@   # every selected block directory is opened (or the listing fails): none is
+//@   # passed over on the strength of some other test
+//@   ghost pending bool = false
+//@   at assign blockdirpath#1: set pending = true
+//@   calls osWithStats.Open#2: requires $0 == blockdirpath
+//@   calls osWithStats.Open#2: set pending = false
+//@   loop 1: invariant !pending
+//@   at loop 1 back: assert !pending
 
 // putWithPipe: when the wait ends because the context is done, the writer side
 // of the pipe is closed with the context's error (so that WriteBlock's reader
@@ -436,6 +451,20 @@ package main
 //@ func UnixVolume.stat property C01,C02
 //@   calls osWithStats.Stat#1: requires $0 == path
 //@   ensures result1 == nil ==> 0 <= FileInfo.Size(result0) && FileInfo.Size(result0) <= BlockSize
+//@   # ... and only those: a full-size block (exactly BlockSize bytes, which PUT
+//@   # accepts) is readable
+//@   ghost serr error = nil
+//@   calls osWithStats.Stat#1: set serr = $r1
+//@   ensures serr == nil && 0 <= FileInfo.Size(result0) && FileInfo.Size(result0) <= BlockSize ==> result1 == nil
+// Compare hands the opened block file itself - not a prefix of it - to the
+// comparison, with the caller's data and the hash part of the locator (a copy
+// with bytes appended is not "identical").
+//@ func UnixVolume.Compare property C01,C02 safety -bounds
+//@   calls UnixVolume.getFunc#1: requires $1 == UnixVolume.blockPath(v, loc)
+//@ func UnixVolume.Compare$1 property C01,C02 safety -bounds
+//@   # (getFunc passes the file it has just opened: nothing has been read yet)
+//@   requires cursor(rdr) == 0
+//@   calls compareReaderWithBuf#1: requires $1 == rdr && $2 == expect && $3 == loc[0:32]
 //@ func UnixVolume.ReadBlock property C01,C02
 //@   ghost serr error = nil
 //@   calls UnixVolume.stat#1: requires $0 == UnixVolume.blockPath(v, loc)
